@@ -1974,6 +1974,13 @@ impl StorageEngine {
     }
     
     pub fn setrange(&self, db: DatabaseIndex, key: Key, offset: usize, value: Vec<u8>) -> Result<usize> {
+        // offset comes from the client: like Redis, refuse strings beyond 512 MB before
+        // offset + len is computed (it could overflow) or that much memory is reserved
+        const MAX_STRING_LEN: usize = 512 * 1024 * 1024;
+        if offset > MAX_STRING_LEN || value.len() > MAX_STRING_LEN - offset {
+            return Err(FerrousError::Command(CommandError::Generic(
+                "string exceeds maximum allowed size (proto-max-bulk-len)".to_string())));
+        }
         let shard = self.get_shard(db, &key)?;
         let mut shard_guard = shard.write().unwrap();
         
